@@ -13,3 +13,11 @@ Print Assumptions C09_check_composes.
 Theorem C09_uses_after_decls_ok : forall d refs, (forall x, In x refs -> In x d) -> ok_from d (map Use refs) = true.
 Proof. exact uses_after_decls_ok. Qed.
 Print Assumptions C09_uses_after_decls_ok.
+
+(* the general statement: include-once expansion of any type's header declares every type before it is used, for every
+   set of definitions whose by-value containment has bounded depth (rustc guarantees it is acyclic), whatever the pointer
+   and method-signature references between the types look like, cycles included *)
+Theorem C09_headers_declare_before_use : forall e f t,
+  (forall x, depth_le e f x = true) -> declared_before_use (expand_h e (S f) t) = true.
+Proof. exact headers_declare_before_use. Qed.
+Print Assumptions C09_headers_declare_before_use.
